@@ -3,6 +3,9 @@ package sql
 
 type Context struct{}
 
+// Row is a table row; its elements are row cells.
+type Row []any
+
 type ConvertInRange byte
 
 const (
